@@ -16,8 +16,8 @@ another proposal, a status field assigned another value: each changes the regene
 the theorem below for that function no longer checks.  What the tie does not see: the values moved
 by the `plumbing` assignments (value-path twin and its correspondence), iteration counts of loops,
 iterations of the transaction controller's loops beyond the first (its theorems are for
-transactions that list one proposal) and its creation of proposals (reconcileInitialize before the
-proposals are listed): tied by correspondence only.
+transactions that list one proposal; the creation of proposals is covered for a change of one
+target, rollback transactions' creation of proposals by correspondence only).
 -/
 import OnosVerif.Proofs.V2SkelProp
 import OnosVerif.Proofs.V2SkelCfg
@@ -175,7 +175,7 @@ theorem V2_skel_tx_commit_done (s : Sys) (t : Tx) (p : Proposal) (h : t.commit =
 /-- INITIALIZED (transaction): open the Validate phase and wake the next transaction of the log,
     unless the predecessor transaction is SERIALIZABLE and not yet VALIDATED -/
 theorem V2_skel_tx_initialize_done (s : Sys) (t : Tx) (p : Proposal) (pl : Tx) (b : Bool) (h : t.init = .done) :
-    proj (v2sk_tx_initialize (gTxInitOf t false p b pl (s.tx? p.prev).isNone ((s.tx? p.prev).getD default))) =
+    proj (v2sk_tx_initialize (gTxInitOf t true false p b pl (s.tx? p.prev).isNone ((s.tx? p.prev).getD default))) =
       planTraceTx (if waitsForSerializable s [p] .validated then .nop
         else { effects := [.tx t.index t.version .openValidate], requeue := some (.tx (t.index + 1)) }) :=
   skel_tx_initialize_done s t p pl b h
@@ -185,12 +185,26 @@ theorem V2_skel_tx_initialize_done (s : Sys) (t : Tx) (p : Proposal) (pl : Tx) (
 theorem V2_skel_tx_initialize_listed (s : Sys) (t : Tx) (p : Proposal) (q : Tx) (b : Bool)
     (h : t.init = .opened) (hprops : t.proposals = some [(p.target, p.index)])
     (hp : s.prop? (p.target, p.index) = some p) :
-    proj (v2sk_tx_initialize (gTxInitOf t false p (s.tx? (t.index - 1)).isNone ((s.tx? (t.index - 1)).getD default) b q)) =
+    proj (v2sk_tx_initialize (gTxInitOf t true false p (s.tx? (t.index - 1)).isNone ((s.tx? (t.index - 1)).getD default) b q)) =
       (if waitsPrevInit s t then [.ret "nil" []]
        else .set "allInitialized" "true" ::
          ((if p.init = .none ∨ p.init = .opened then [.set "allInitialized" "false"] else []) ++
            planTraceTx (txInitProposals s t))) :=
   skel_tx_initialize_listed s t p q b h hprops hp
+
+/-- INITIALIZING (transaction), proposals not yet listed, a change of ONE target: the proposal is
+    created unless it exists already (an earlier, interrupted pass), and in BOTH cases its id is
+    listed in `Status.Proposals` (the `append` is outside the not-found block) -/
+theorem V2_skel_tx_initialize_create (s : Sys) (t : Tx) (tgt : Tgt) (ch : Config.VMap) (q : Tx) (b : Bool) (p : Proposal)
+    (h : t.init = .opened) (hprops : t.proposals = none) (hrb : t.isRollback = false)
+    (hch : t.changes = [(tgt, ch)]) (hw : waitsPrevInit s t = false) :
+    txInitProposals s t =
+      { effects := initCreatesChange s t ++ [.tx t.index t.version (.setProposals [(tgt, t.index)])] } ∧
+    proj (v2sk_tx_initialize (gTxInitOf t false (s.prop? (tgt, t.index)).isNone p
+        (s.tx? (t.index - 1)).isNone ((s.tx? (t.index - 1)).getD default) b q)) =
+      (initCreatesChange s t).flatMap effToksTx ++ [.set "proposals" "append(proposals, proposalID)"] ++
+        planTraceTx { effects := [.tx t.index t.version (.setProposals [(tgt, t.index)])] } :=
+  skel_tx_initialize_create s t tgt ch q b p h hprops hrb hch hw
 
 /-- a listed proposal that is not found ends the invocation without a write (every loop) -/
 theorem V2_skel_tx_missing (t : Tx) (p : Proposal) (q : Tx) (b : Bool) :
